@@ -22,5 +22,10 @@ def runDg (rb : RB) : List (Nat × Dg) → List RecvOut
   | [] => []
   | (now, d) :: rest => let r := rb.receiveDg now d; r.2 :: runDg r.1 rest
 
+/-- run the receiver over raw datagram bytes (what the transport's read loop hands to `Receive`) -/
+def runBytes (rb : RB) : List (Nat × Bytes) → List RecvOut
+  | [] => []
+  | (now, bs) :: rest => let r := rb.receive now bs; r.2 :: runBytes r.1 rest
+
 
 end Iscp.Seg
